@@ -246,7 +246,10 @@ fn run_once(progs: &[Vec<Op>], plan: Plan) -> (Obs, bool) {
         idx += 1;
     }
     o.drained = !stuck;
-    if stuck && std::env::var("C37_DEBUG").is_ok() { eprintln!("c37: stuck: {} flaky={}", replay_line(progs, &o.sched), flaky); }
+    if stuck && std::env::var("C37_DEBUG").is_ok() {
+        eprintln!("c37: stuck: {} flaky={} codes={:?} states={:?} pending={} loglen={}", replay_line(progs, &o.sched), flaky,
+            o.steps.iter().map(|x| x.0).collect::<Vec<_>>(), (0..n).map(|i| s.state(i)).collect::<Vec<_>>(), q.pending_count(), log.lock().unwrap().len());
+    }
     // snapshot before any 30 s timeout of a stuck waiter can change the picture
     o.log = log.lock().unwrap().clone();
     o.failed = failed.lock().unwrap().clone();
